@@ -316,7 +316,7 @@ class Env:
     def run(self, calls, start=None, decoys=False):
         """apply a history; returns (final builder, [exception class or "" per call])"""
         # every history starts from the dialect's empty builder (what Query.from_/into/update/select create first)
-        q = start if start is not None else self.Q._builder()
+        q = start if start is not None else core.empty_builder(self.Q)
         excs = []
         for c in calls:
             if decoys:
